@@ -3,6 +3,7 @@ package rules
 import (
 	"fmt"
 	"go/token"
+	"go/types"
 	"strings"
 
 	"golang.org/x/tools/go/ssa"
@@ -56,11 +57,7 @@ func runC01(c *core.Ctx) {
 
 // sizeZeroPred: subs.Size()==0 of node base
 func sizeZeroPred(node func(ssa.Value) bool) eng.Pred {
-	return eng.EqPred("subs.Size()==0", true, func(x, y ssa.Value) bool {
-		k, ok := eng.ConstInt(y)
-		if !ok || k != 0 {
-			return false
-		}
+	return eng.ZeroPred("subs.Size()==0", true, func(x ssa.Value) bool {
 		call, ok := eng.StripConv(x).(*ssa.Call)
 		if !ok || eng.FuncID(eng.CalleeObj(&call.Call)) != idSubsSize {
 			return false
@@ -71,11 +68,7 @@ func sizeZeroPred(node func(ssa.Value) bool) eng.Pred {
 }
 
 func childrenEmptyPred(node func(ssa.Value) bool) eng.Pred {
-	return eng.EqPred("len(children)==0", true, func(x, y ssa.Value) bool {
-		k, ok := eng.ConstInt(y)
-		if !ok || k != 0 {
-			return false
-		}
+	return eng.ZeroPred("len(children)==0", true, func(x ssa.Value) bool {
 		m, ok := eng.LenOf(x)
 		if !ok {
 			return false
@@ -206,34 +199,125 @@ func c01R3(c *core.Ctx) {
 			c.Check(ok, rule, fnName(f)+":orphan if empty", call.Pos(), "whenever the node is empty orphan is called", fmt.Sprintf("a path on which the node is empty returns without calling orphan: %v", w))
 		}
 	}
-	if nCalls < 2 {
-		c.Fail(rule, "orphan call sites", token.NoPos, fmt.Sprintf("expected orphan to be called from Unsubscribe and recursively, found %d call site(s)", nCalls))
-	}
-	// (c) inside orphan: past the root test the delete happens on every path
+	// (c) inside orphan: past the root test the node is deleted from its parent on every path,
+	// and the walk continues with the parent exactly when the parent became empty: either by a
+	// recursive call (covered by (b)) or by a loop whose next node is the parent.
+	ascents, recursive := 0, 0
 	if f := fn(c, rule, "internal/message", "node", "orphan"); f != nil {
-		recv := param(f, 0)
-		notRoot := eng.EqPred("parent != nil", false, func(x, y ssa.Value) bool {
-			b, ok := eng.LoadOfField(x, "parent")
-			return ok && eng.SameValue(b, recv) && eng.IsNilConst(y)
+		for _, call := range eng.Calls(f, false, idOrphan) {
+			if b, ok := eng.LoadOfField(eng.CallArgs(call.Common())[0], "parent"); ok && isNodeVar(f, b) {
+				ascents++
+				recursive++
+			}
+		}
+		// the node variables: the receiver, or the loop variable holding the current node
+		var cands []ssa.Value
+		cands = append(cands, param(f, 0))
+		eng.Instrs(f, func(in ssa.Instruction) {
+			if phi, ok := in.(*ssa.Phi); ok && isNodeVar(f, phi) {
+				cands = append(cands, phi)
+			}
 		})
-		ok, w := eng.MustFollow(f, []eng.Pred{notRoot}, func(i ssa.Instruction) bool {
-			args, ok := eng.IsBuiltinCall(i, "delete")
-			if !ok {
-				return false
+		delOf := func(z ssa.Value) func(i ssa.Instruction) bool {
+			return func(i ssa.Instruction) bool {
+				args, ok := eng.IsBuiltinCall(i, "delete")
+				if !ok {
+					return false
+				}
+				m, ok := eng.LoadOfField(args[0], "children")
+				if !ok || !isParentOf(m, z) {
+					return false
+				}
+				wb, ok := eng.LoadOfField(args[1], "word")
+				return ok && eng.SameValue(wb, z)
 			}
-			m, ok := eng.LoadOfField(args[0], "children")
-			if !ok {
-				return false
+		}
+		okDel := false
+		var wit []string
+		for _, z := range cands {
+			z := z
+			notRoot := eng.EqPred("parent != nil", false, func(x, y ssa.Value) bool {
+				return isParentOf(x, z) && eng.IsNilConst(y)
+			})
+			if !eng.HasLicensingEdge(f, notRoot) {
+				continue
 			}
-			pb, ok := eng.LoadOfField(m, "parent")
-			if !ok || !eng.SameValue(pb, recv) {
-				return false
+			ok, w := eng.MustFollow(f, []eng.Pred{notRoot}, delOf(z))
+			if ok {
+				okDel = true
+			} else {
+				wit = w
 			}
-			wb, ok := eng.LoadOfField(args[1], "word")
-			return ok && eng.SameValue(wb, recv)
-		})
-		c.Check(ok && eng.HasLicensingEdge(f, notRoot), rule, fnName(f)+":delete(parent.children, n.word)", f.Pos(), "past the root test the node is removed from its parent's children under its own word", fmt.Sprintf("orphan can return without delete(n.parent.children, n.word): %v", w))
+			// loop form: z = phi(receiver, z.parent)
+			phi, isPhi := z.(*ssa.Phi)
+			if !isPhi || !ok {
+				continue
+			}
+			var del ssa.Instruction
+			eng.Instrs(f, func(i ssa.Instruction) {
+				if delOf(z)(i) {
+					del = i
+				}
+			})
+			for k, e := range phi.Edges {
+				if !isParentOf(e, z) || del == nil {
+					continue
+				}
+				ascents++
+				next := e
+				src := phi.Block().Preds[k]
+				same := func(v ssa.Value) bool { return eng.SameValue(v, next) }
+				p1, p2 := sizeZeroPred(same), childrenEmptyPred(same)
+				for _, p := range []eng.Pred{p1, p2} {
+					g := eng.GuardedEdge(del, func(a, b *ssa.BasicBlock) bool { return a == src && b == phi.Block() }, p)
+					c.Count("guard_cuts", 1)
+					if g.Guarded && g.Edges > 0 {
+						c.OK(rule, fnName(f)+":ascend only if "+p.Name, del.Pos(), "the walk continues with the parent only behind "+p.Name+" of the parent")
+					} else {
+						c.Fail(rule, fnName(f)+":ascend only if "+p.Name, del.Pos(), "the pruning walk continues with the parent without "+p.Name+" of the parent: a non-empty branch is detached", g.Witness...)
+					}
+				}
+				okF, w := eng.MustFollowFrom(f, del, []eng.Pred{p1, p2}, func(i ssa.Instruction) bool { return i == ssa.Instruction(phi) })
+				c.Check(okF, rule, fnName(f)+":ascend if empty", del.Pos(), "whenever the parent became empty the walk continues with it", fmt.Sprintf("a path on which the parent became empty ends the walk: %v", w))
+			}
+		}
+		c.Check(okDel, rule, fnName(f)+":delete(parent.children, n.word)", f.Pos(), "past the root test the node is removed from its parent's children under its own word", fmt.Sprintf("orphan can return without delete(n.parent.children, n.word): %v", wit))
 	}
+	if nCalls-recursive < 1 || ascents < 1 {
+		c.Fail(rule, "orphan call sites", token.NoPos, fmt.Sprintf("expected orphan to be called from Unsubscribe and to continue with the parent (recursion or loop), found %d call site(s), %d ascent(s)", nCalls, ascents))
+	}
+}
+
+// isParentOf: v denotes z.parent — a load of z.parent, or a second loop variable P carried
+// next to z (phis of the same block) that is z.parent on every incoming edge: the relation
+// P == z.parent is then a loop invariant (initially P = z0.parent; in the step z' = P and
+// P' = P.parent).
+func isParentOf(v, z ssa.Value) bool {
+	if b, ok := eng.LoadOfField(v, "parent"); ok && eng.SameValue(b, z) {
+		return true
+	}
+	p, ok1 := v.(*ssa.Phi)
+	zp, ok2 := z.(*ssa.Phi)
+	if !ok1 || !ok2 || p.Block() != zp.Block() || len(p.Edges) != len(zp.Edges) {
+		return false
+	}
+	for i := range p.Edges {
+		b, ok := eng.LoadOfField(p.Edges[i], "parent")
+		if !ok || !eng.SameValue(b, zp.Edges[i]) {
+			return false
+		}
+	}
+	return true
+}
+
+// isNodeVar: v has type *node and belongs to f.
+func isNodeVar(f *ssa.Function, v ssa.Value) bool {
+	p, ok := v.Type().(*types.Pointer)
+	if !ok {
+		return false
+	}
+	n, ok := p.Elem().(*types.Named)
+	return ok && n.Obj().Pkg() != nil && n.Obj().Pkg().Path()+"."+n.Obj().Name() == tNode
 }
 
 func objOf(f *ssa.Function) *typesFunc {
@@ -286,11 +370,7 @@ func c01R4(c *core.Ctx) {
 	if len(adds) != 1 {
 		c.Fail(rule, fnName(f)+":one pick per group", f.Pos(), fmt.Sprintf("expected one AddUnique per iteration, found %d", len(adds)))
 	} else {
-		nonEmpty := eng.EqPred("list.Size()!=0", false, func(x, y ssa.Value) bool {
-			k, ok := eng.ConstInt(y)
-			if !ok || k != 0 {
-				return false
-			}
+		nonEmpty := eng.NonZeroPred("list.Size()!=0", true, func(x ssa.Value) bool {
 			call, ok := eng.StripConv(x).(*ssa.Call)
 			return ok && eng.FuncID(eng.CalleeObj(&call.Call)) == idSubsSize
 		})
